@@ -30,6 +30,7 @@ ASSUMPTIONS = [
 ]
 
 KINDS = ('int', 'floatnan', 'bool', 'str', 'obj')
+GROWN = True
 
 
 def scope(tier):
@@ -297,6 +298,26 @@ def run_case(case, ctx):
             dsig = diff_signature(objs[groups[0][0]], objs[groups[1][0]])
             ctx.violation(f'layout-dependent|{opclass}|{dsig}', kinds=kinds, nrows=n, operation=name,
                           majority=(groups[0][1][:3], groups[0][0][:300]), minority=(groups[1][1][:3], groups[1][0][:300]), kinds_present=kinds_has)
+    # grow-only twin: the same blocks handed to a FrameGO at once, and appended to it one at a time (TypeBlocks.append keeps its own row-dtype
+    # bookkeeping): every operation of the menu answers the same
+    if m and GROWN:
+        sig, blocks = lays[-1]
+        at_once = sf.FrameGO(sf.TypeBlocks.from_blocks(blocks), index=index, columns=columns, name='fn', own_data=True)
+        g = sf.FrameGO(index=index, name='fn')
+        j = 0
+        for b in blocks:
+            w = 1 if b.ndim == 1 else b.shape[1]
+            g.extend(sf.Frame(sf.TypeBlocks.from_blocks([b]), index=index, columns=columns[j:j + w], own_data=True))
+            j += w
+        ctx.state((kinds, n, 'grown', sig))
+        structural(ctx, g, cols, n, m, dict(kinds=kinds, nrows=n, layout=('grown',) + tuple(sig)))
+        for name, fn in ops:
+            ctx.transition(2)
+            oa, ob = outcome(lambda: fn(at_once)), outcome(lambda: fn(g))
+            ctx.nontriv((kinds, n, name, 'grown'))
+            if repr(oa) != repr(ob):
+                ctx.violation(f'grown-FrameGO-differs-from-FrameGO-built-at-once|{opclass_of(name).split("(")[0].split("[")[0]}|{diff_signature(oa, ob)}', kinds=kinds, nrows=n, operation=name,
+                              at_once=repr(oa)[:300], grown=repr(ob)[:300])
     # non-initial states: the same content reached through another operation (whose result may be blocked differently under each layout) gets the
     # selection / update / iteration part of the menu again
     if 1 <= m <= 3 and n >= 1:     # (4-column frames get the first-level menu only: the derived-state pass costs 5x)
